@@ -19,6 +19,7 @@ namespace drv {
 SlotCfg cfg[NSLOT + 1];
 std::unique_ptr<Mock> mocks[NMOCK];
 std::unique_ptr<MockN> nmock;
+std::unique_ptr<WMock> wmock;
 std::unique_ptr<trompeloeil::sequence> seqs[NSEQ + 1];
 std::unique_ptr<trompeloeil::expectation> exps[NSLOT + 1];
 std::unique_ptr<DW> objs[NOBJ + 1];
@@ -112,6 +113,7 @@ static std::string base(std::string const& f) { auto p = f.rfind('/'); return p 
 static int do_call(int m, int f, int a, int b)
 {
   if (m == NM_ID) return nmock->f(a);
+  if (m == WM_ID) return wmock->f(a);
   switch (f) {
   case 1: return mocks[m]->f(a);
   case 2: return mocks[m]->f(std::string("s") + std::to_string(a));
